@@ -95,6 +95,7 @@ TABLE = {
     "band_format": ("BAND_FORMAT", "--band-format", "value"), "qpoints_format": ("QPOINTS_FORMAT", "--qpoints-format", "value"),
     "include_all": ("INCLUDE_ALL", "--include-all", "true"), "fc_calc": ("FC_CALCULATOR", "--fc-calc", "value"),
     # phonopy-load only (NAC and FC_SYMMETRY default to on there)
+    "tdisp": ("TDISP", "--td", "true"),
     "nonac": ("NAC", "--nonac", "false"), "no_sym_fc": ("FC_SYMMETRY", "--no-sym-fc", "false"),
 }
 
@@ -125,7 +126,7 @@ def _fmt(v):
 
 
 def gen_post_step(rng, w, has_born, prev_wrote_fc, force_cmd=None):
-    mode = rng.choice(["mesh", "band", "qpoints", "dos", "pdos", "tprop", "writefc"] + (["readfc"] if prev_wrote_fc else []))
+    mode = rng.choice(["mesh", "band", "qpoints", "dos", "pdos", "tprop", "writefc", "band_mesh", "tdisp"] + (["readfc"] if prev_wrote_fc else []))
     s = {}
     cmd = rng.choice(["phonopy", "phonopy", "phonopy-load"])
     if force_cmd:
@@ -133,7 +134,7 @@ def gen_post_step(rng, w, has_born, prev_wrote_fc, force_cmd=None):
         # files by documented design, so they would not be a fault there
         cmd = force_cmd
     mesh = [rng.randint(1, 3) for _ in range(3)]
-    if mode in ("mesh", "dos", "pdos", "tprop"):
+    if mode in ("mesh", "dos", "pdos", "tprop", "band_mesh", "tdisp"):
         s["mesh"] = _fmt(mesh)
         if rng.random() < 0.4:
             s["gc"] = True
@@ -146,7 +147,14 @@ def gen_post_step(rng, w, has_born, prev_wrote_fc, force_cmd=None):
             s["gv"] = True
         if rng.random() < 0.25:
             s["mesh_format"] = "hdf5"
-    elif mode == "band":
+    elif mode == "tdisp":
+        s["tdisp"] = True
+        s["tmin"], s["tmax"], s["tstep"] = 0, rng.choice([300, 600]), rng.choice([100, 150])
+        # without a frequency cut-off the acoustic modes at Gamma (+-1e-8 THz of rounding noise) enter as 1/omega: the
+        # written numbers are then ~1e14 and noise, not a property of either front-end
+        s["fmin"] = rng.choice([0.1, 0.2])
+        s.pop("nomeshsym", None)
+    elif mode in ("band", "band_mesh"):
         pts = [[0, 0, 0], [0.5, 0, 0], [0.5, 0.5, 0], [0.5, 0.5, 0.5], [0, 0.5, 0.5], [0.25, 0.25, 0]]
         path = rng.sample(pts, rng.randint(2, 3))
         if path[0][0] < 0:
@@ -159,8 +167,11 @@ def gen_post_step(rng, w, has_born, prev_wrote_fc, force_cmd=None):
             s["eigvecs"] = True
         if rng.random() < 0.25:
             s["gv"] = True
-        if rng.random() < 0.25:
+        if rng.random() < 0.25 and mode == "band":
             s["band_format"] = "hdf5"
+        if mode == "band_mesh":
+            for k in ("eigvecs", "gv", "band_connection"):
+                s.pop(k, None)
     elif mode == "qpoints":
         qs = [[0.1, 0.2, 0.3], [0.5, 0, 0], [0, 0, 0], [0.25, 0.25, 0.25], [0.5, 0.5, 0.5]]
         sel = rng.sample(qs, rng.randint(1, 3))
@@ -190,10 +201,10 @@ def gen_post_step(rng, w, has_born, prev_wrote_fc, force_cmd=None):
     elif mode == "tprop":
         s["tprop"] = True
         s["tmin"], s["tmax"], s["tstep"] = rng.choice([0, 50]), rng.choice([300, 500]), rng.choice([50, 100])
-        if rng.random() < 0.5:
-            s["cutoff_freq"] = 0.05
-        if rng.random() < 0.2:
-            s["pretend_real"] = True
+        # always with a cut-off: at the default cut-off 0 an acoustic Gamma mode of +-1e-8 THz (rounding noise whose sign
+        # differs between compact/full or symmetrised/unsymmetrised force constants) enters or leaves the sums and moves
+        # F and S by ~1 kJ/mol (section 2.4 of DESIGN.md)
+        s["cutoff_freq"] = rng.choice([0.05, 0.1])
     elif mode == "writefc":
         s["writefc"] = True
         if rng.random() < 0.5:
@@ -320,12 +331,13 @@ def _ref_object(spec, s, path, cmd):
         nac = os.path.exists("BORN") and not s.get("nonac", False)
         sym = not s.get("no_sym_fc", False)
         lkw = dict(is_nac=nac, symmetrize_fc=sym, is_compact_fc=not s.get("full_fc", False), factor=kw["factor"], symprec=kw["symprec"], is_symmetry=kw["is_symmetry"], log_level=0)
+        # no explicit file names unless --readfc names a format: like the command, load() then discovers FORCE_CONSTANTS /
+        # force_constants.hdf5 (left by an earlier write-fc step of the same workflow) ahead of FORCE_SETS
         if s.get("readfc"):
             lkw["force_constants_filename"] = "force_constants.hdf5" if s.get("readfc_format") == "hdf5" else "FORCE_CONSTANTS"
-        else:
-            lkw["force_sets_filename"] = "FORCE_SETS"
+        fc_from_file = bool(s.get("readfc")) or os.path.exists("FORCE_CONSTANTS") or os.path.exists("force_constants.hdf5")
         ph = phonopy.load("phonopy_disp.yaml", **lkw)
-        if s.get("readfc") and sym:
+        if fc_from_file and sym:
             ph.symmetrize_force_constants()
         if nac and "nac_method" in s:
             n = dict(ph.nac_params)
@@ -373,7 +385,12 @@ def child_reference(args):
         ph.run_mesh(mesh, with_eigenvectors=bool(s.get("eigvecs")), with_group_velocities=bool(s.get("gv")), **mkw)
         d = ph.get_mesh_dict()
         out.update(q=d["qpoints"], w=d["weights"], freq=d["frequencies"], gv=d["group_velocities"], vecs=d["eigenvectors"])
-    elif mode == "band":
+    elif mode == "tdisp":
+        ph.run_mesh(mesh, with_eigenvectors=True, is_mesh_symmetry=False, is_gamma_center=mkw["is_gamma_center"])
+        ph.run_thermal_displacements(t_min=s.get("tmin", 0), t_max=s.get("tmax", 1000), t_step=s.get("tstep", 10), freq_min=s.get("fmin"), freq_max=s.get("fmax"))
+        d = ph.get_thermal_displacements_dict()
+        out.update(T=d["temperatures"], tdisp=d["thermal_displacements"])
+    elif mode in ("band", "band_mesh"):
         from phonopy.phonon.band_structure import get_band_qpoints
 
         pts = np.array([float(x) for x in s["band"].split()]).reshape(-1, 3)
@@ -382,6 +399,10 @@ def child_reference(args):
         d = ph.get_band_structure_dict()
         out.update(q=np.concatenate(d["qpoints"]), freq=np.concatenate(d["frequencies"]),
                    gv=None if d.get("group_velocities") is None else np.concatenate(d["group_velocities"]))
+        if mode == "band_mesh":
+            ph.run_mesh(mesh, **mkw)
+            dm_ = ph.get_mesh_dict()
+            out.update(mesh_q=dm_["qpoints"], mesh_w=dm_["weights"], mesh_freq=dm_["frequencies"])
     elif mode == "qpoints":
         qs = np.array([float(x) for x in s["qpoints"].split()]).reshape(-1, 3)
         qd = [float(x) for x in s["q_direction"].split()] if "q_direction" in s else None
@@ -450,7 +471,19 @@ def parse_outputs(path, step):
             out["freq"] = np.array([[b["frequency"] for b in p["band"]] for p in y["phonon"]])
             out["gv"] = np.array([[b["group_velocity"] for b in p["band"]] for p in y["phonon"]]) if "group_velocity" in y["phonon"][0]["band"][0] else None
             out["_dec"] = simfs.printed_decimals(open(j("mesh.yaml")).read())
-    elif mode == "band":
+    elif mode == "tdisp":
+        y = _yaml(j("thermal_displacements.yaml"))
+        td = y["thermal_displacements"]
+        out.update(T=np.array([t["temperature"] for t in td]), tdisp=np.array([np.ravel(t["displacements"]) for t in td]),
+                   _dec=simfs.printed_decimals(open(j("thermal_displacements.yaml")).read()))
+    elif mode in ("band", "band_mesh"):
+        if mode == "band_mesh":
+            if not os.path.exists(j("mesh.yaml")) or not os.path.exists(j("band.yaml")):
+                raise FileNotFoundError("band+mesh mode must write band.yaml and mesh.yaml; present: %s" % sorted(f for f in os.listdir(path) if f.startswith(("band", "mesh"))))
+            ym = _yaml(j("mesh.yaml"))
+            out["mesh_q"] = np.array([p["q-position"] for p in ym["phonon"]])
+            out["mesh_w"] = np.array([p["weight"] for p in ym["phonon"]])
+            out["mesh_freq"] = np.array([[b["frequency"] for b in p["band"]] for p in ym["phonon"]])
         if s.get("band_format") == "hdf5":
             with h5py.File(j("band.hdf5"), "r") as f:
                 out.update(q=f["path"][:].reshape(-1, 3), freq=f["frequency"][:].reshape(-1, f["frequency"].shape[-1]),
@@ -586,7 +619,7 @@ def execute(spec):
             tag_hits[TABLE[k][0] + ":" + rts.get(k, "opt")] = tag_hits.get(TABLE[k][0] + ":" + rts.get(k, "opt"), 0) + 1
         return sub(child_cli, (path, cmd, conf, argv, list(positional)))
 
-    with simfs.RunDir("c18a-") as A, simfs.RunDir("c18b-") as B:
+    with simfs.RunDir("c18a-") as A, simfs.RunDir("c18b-") as B, contextlib.ExitStack() as refdirs:
         # ---- the user's POSCAR (and BORN)
         cell = w.unitcell()
         os.chdir(A.path)
@@ -736,6 +769,10 @@ def execute(spec):
                 full = dict(s, fc_calc="traditional")
                 positional = ["phonopy_disp.yaml"]
             step_eff = dict(step, cmd=cmd, settings=s)
+            # the library reference must see the directory as it was BEFORE the step (a write-fc step overwrites files that
+            # the next discovery would read)
+            refdir = refdirs.enter_context(simfs.RunDir("c18r-"))
+            shutil.copytree(A.path, refdir.path, dirs_exist_ok=True)
             rA = run_cli(A.path, cmd, full, routes, positional)
             rB = run_cli(B.path, cmd, full, swapped, positional)
             label = "%s[%s]" % (mode, cmd)
@@ -746,15 +783,21 @@ def execute(spec):
                     V("workflow-step-failed", label, code=rA["code"], exc=rA["exc"], stdout=rA["stdout"][-500:], argv=rA["argv"])
                 break
             sa, sb = dir_signature(A.path), dir_signature(B.path)
+            diverged = False
             for f in sorted(set(sa) | set(sb)):
                 if sa.get(f) != sb.get(f):
                     V("route-swap-differs", "%s:%s" % (label, f), argv_a=rA["argv"], argv_b=rB["argv"], settings=s)
+                    diverged = True
+            if diverged:
+                break  # the two directories no longer hold the same history: later steps would only echo this difference
             # refinement against the library
             try:
-                ref = sub(child_reference, (spec, step_eff, A.path))
+                ref = sub(child_reference, (spec, step_eff, refdir.path))
             except RuntimeError as e:
                 V("reference-failed", label, error=str(e)[-600:])
                 break
+            finally:
+                shutil.rmtree(refdir.path, ignore_errors=True)
             try:
                 got = parse_outputs(A.path, step_eff)
             except Exception as e:  # noqa: BLE001
@@ -764,10 +807,21 @@ def execute(spec):
             bad = []
             dget = (lambda key, default=None: None if dec is None else dec.get(key, default))
             stale_tag = "|stale-files-present" if faults else ""
-            if mode in ("mesh", "readfc", "band", "qpoints"):
+            if mode == "tdisp":
+                cmp_num("temperature", got["T"], ref["T"], dget("temperature", 7), bad)
+                cmp_num("thermal_displacements", got["tdisp"], np.asarray(ref["tdisp"]).reshape(np.asarray(got["tdisp"]).shape) if np.asarray(ref["tdisp"]).size == np.asarray(got["tdisp"]).size else ref["tdisp"], dget("displacements", 7), bad)
+            if mode == "band_mesh":
+                cmp_num("mesh:q-position", got.get("mesh_q"), ref.get("mesh_q"), 7, bad)
+                cmp_freq("mesh:frequency", got.get("mesh_freq"), ref.get("mesh_freq"), 10, bad)
+            if mode in ("mesh", "readfc", "band", "qpoints", "band_mesh"):
                 cmp_num("q-position", got.get("q"), ref.get("q"), dget("q-position", 7), bad)
-                cmp_freq("frequency", got.get("freq"), ref.get("freq"), dget("frequency", 10), bad)
-                if s.get("gv"):
+                gf, rf = got.get("freq"), ref.get("freq")
+                if s.get("band_connection") and gf is not None and rf is not None and np.asarray(gf).shape == np.asarray(rf).shape:
+                    # the connection order hinges on eigenvector overlaps of (near-)degenerate modes, i.e. on rounding noise:
+                    # what must agree is the per-q set of frequencies
+                    gf, rf = np.sort(np.asarray(gf), axis=-1), np.sort(np.asarray(rf), axis=-1)
+                cmp_freq("frequency", gf, rf, dget("frequency", 10), bad)
+                if s.get("gv") and not s.get("band_connection"):
                     cmp_num("group_velocity", got.get("gv"), ref.get("gv"), dget("group_velocity", 7), bad)
                 if mode in ("mesh", "readfc"):
                     cmp_num("weight", got.get("w"), ref.get("w"), 0 if dec is not None else None, bad)
@@ -836,8 +890,8 @@ def shrink_candidates(spec):
         yield dict(spec, stale=[])
     for i, st in enumerate(spec["steps"]):
         for k in list(st["settings"]):
-            if k in ("mesh", "band", "qpoints", "dos", "pdos", "tprop", "writefc", "readfc"):
-                continue
+            if k in ("mesh", "band", "qpoints", "dos", "pdos", "tprop", "writefc", "readfc", "tdisp", "cutoff_freq", "fmin", "band_points"):
+                continue  # mode-defining or conditioning settings (removing a cut-off creates a different, ill-conditioned case)
             ns = dict(st["settings"])
             ns.pop(k)
             steps = list(spec["steps"])
